@@ -56,7 +56,7 @@ func ExecOp(s *Stores, ctx boltz.MutateContext, op Op) (res execResult) {
 		case StPX:
 			res.err = s.PX.Create(ctx, &PX{Person: op.person(), Memo: op.Memo})
 		case StBadges:
-			res.err = s.Badges.Create(ctx, &Badge{Id: op.Id, Owner: strOr(op.Ref)})
+			res.err = s.Badges.Create(ctx, &Badge{Id: op.Id, Owner: strOr(op.Ref), IsSystem: op.IsSys})
 		case StNotes:
 			res.err = s.Notes.Create(ctx, &Note{Id: op.Id, About: cloneStrP(op.Ref)})
 		case StTickets:
@@ -79,7 +79,7 @@ func ExecOp(s *Stores, ctx boltz.MutateContext, op Op) (res execResult) {
 		case StPX:
 			res.err = s.PX.Update(ctx, &PX{Person: op.person(), Memo: op.Memo}, chk)
 		case StBadges:
-			res.err = s.Badges.Update(ctx, &Badge{Id: op.Id, Owner: strOr(op.Ref)}, chk)
+			res.err = s.Badges.Update(ctx, &Badge{Id: op.Id, Owner: strOr(op.Ref), IsSystem: op.IsSys}, chk)
 		case StNotes:
 			res.err = s.Notes.Update(ctx, &Note{Id: op.Id, About: cloneStrP(op.Ref)}, chk)
 		case StTickets:
@@ -92,7 +92,7 @@ func ExecOp(s *Stores, ctx boltz.MutateContext, op Op) (res execResult) {
 	case "delete":
 		res.err = s.ByName(op.S).DeleteById(ctx, op.Id)
 	case "deleteWhere":
-		field := map[string]string{StNotes: "about", StTickets: "assignee", StBadges: "owner"}[op.S]
+		field := map[string]string{StNotes: "about", StTickets: "assignee", StBadges: "owner", StPeople: "name", StStaff: "name", StPX: "name"}[op.S]
 		res.err = s.ByName(op.S).DeleteWhere(ctx, fmt.Sprintf(`%s = "%s"`, field, op.Q))
 	case "addLinks", "removeLinks", "setLinks", "addLink", "removeLink":
 		var lc boltz.LinkCollection = s.People.lcGroups
@@ -214,7 +214,7 @@ func snapEntity(store string, e boltz.Entity) string {
 			return "<nil>"
 		}
 		o := v.Owner
-		return simpleSnap(StBadges, v.Id, "", &o)
+		return simpleSnap(StBadges, v.Id, sysMark(v.IsSystem), &o)
 	case *Note:
 		if v == nil {
 			return "<nil>"
